@@ -11,7 +11,7 @@ Inductive sty :=
 | SEnumRef (s : string) | SStructRef (s : string)
 | SArr (t : sty) (n : nat) | SDyn (t : sty) | SOpt (t : sty).
 
-Record sfield := { fname : string; fid : Z; fty : sty }.
+Record sfield := { fname : string; fid : Z; fty : sty; funit : option string }.
 Record sstruct := { sname : string; sfields : list sfield }.
 Record senum := { ename : string; evals : list (string * Z) }.
 Record schema := { structs : list sstruct; enums : list senum }.
